@@ -26,8 +26,11 @@
                              the history (deletes, updates, vacuum, doctor, crash … included).
     * `C26_committed_frame`  once nothing is pending, the committed frame table holds that document
                              at that id.
-    * `C26_only_puts_add`    an operation other than put/update never adds a card, a record or a queue
-                             entry to what the handle holds in memory or on disk.
+    * `C26_code_policy`, `C26`  tie to the source: the translator found the `frameId` shape in put_internal,
+                             so the model the driver runs against the implementation is the repaired one.
+  MvProps/C26Closure.lean adds: only puts create derived data (`C26_only_puts_add`,
+  `C26_put_adds_only_its_id`) and, for every history, every id held by derived data — in memory or
+  persisted — is the id of a put's document (`C26_derived_name_documents`).
 -/
 import MvProps.C26Lemmas
 namespace Mv.Core
